@@ -58,7 +58,7 @@ theorem dateOf_days {y m d D : Nat} (hv : VD y m d) (hl : LowOk y m) (h1 : d ≤
   exact carry_days' hc hv.1 hv.2.1 (by omega) hl (hwk _ _ _ hc)
 
 /-- the week's list ascends -/
-theorem weekL_sorted (r : Rule) (p : Inst) (nti : Nat) (hr : WfRule r) (hp : WfInst p) (hs : SeedOk r p)
+theorem weekL_sorted (r : Rule) (p : Inst) (nti : Nat) (hr : WfRule r) (hp : WfInst p)
     {y m d : Nat} (hv : VD y m d) (hl : LowOk y m)
     (hwk : ∀ D, d ≤ D → D ≤ d + 6 → ∀ ty tm td, Carry y m D ty tm td → ty * 12 + tm ≤ 25201) :
     (weekL r p nti y m d).Pairwise (fun a b => absOf a < absOf b) := by
@@ -66,7 +66,7 @@ theorem weekL_sorted (r : Rule) (p : Inst) (nti : Nat) (hr : WfRule r) (hp : WfI
   rw [List.pairwise_flatMap]
   constructor
   · intro D' _
-    exact dayL_sorted r p hr hp hs _ _ _
+    exact dayL_sorted r p hr hp _ _ _
   · refine ((offs_sorted 8 (wlyIncs r) 6 d (wlyIncs_nib r)).filter _).imp_of_mem ?_
     intro D1 D2 h1 h2 hlt a ha b hb
     have r1 := mem_week_offs (List.mem_filter.1 h1).1
@@ -78,9 +78,9 @@ theorem weekL_sorted (r : Rule) (p : Inst) (nti : Nat) (hr : WfRule r) (hp : WfI
     obtain ⟨a1, a2, a3⟩ := mem_timesIx ht1
     obtain ⟨b1, b2, b3⟩ := mem_timesIx ht2
     have ka := secOf_range p _ (exp_of_enum (x := mkz (dateOf y m D1).1 (dateOf y m D1).2.1 (dateOf y m D1).2.2 p.ms t1)
-      hr hp hs a1 a2 a3).1
+      hr hp a1 a2 a3).1
     have kb := secOf_range p _ (exp_of_enum (x := mkz (dateOf y m D2).1 (dateOf y m D2).2.1 (dateOf y m D2).2.2 p.ms t2)
-      hr hp hs b1 b2 b3).1
+      hr hp b1 b2 b3).1
     unfold absOf
     have d1 : dayOf (mkz (dateOf y m D1).1 (dateOf y m D1).2.1 (dateOf y m D1).2.2 p.ms t1) = days y m 1 + D1 - 1 := e1
     have d2 : dayOf (mkz (dateOf y m D2).1 (dateOf y m D2).2.1 (dateOf y m D2).2.2 p.ms t2) = days y m 1 + D2 - 1 := e2
